@@ -250,6 +250,58 @@ def r4_float_literals_inverse_of_repr(ctx):
                witness="1e23 read as int; 1.401298464324817e-45 read as 1.4012984643248169e-45")
 
 
+@rule("C03.R11", floor=8)
+def r11_imaginary_and_special_numbers(ctx):
+    """Imaginary numbers are printed from repr() of a complex number; for a zero real part that text is
+    repr(float) of the imaginary part followed by j -- exponent forms included -- which the reader's
+    imaginary literal must accept (decided on the regex with exemplars of every shape repr(float)
+    takes) and convert with float(); a non-zero real part has no literal, and repr() parenthesises a
+    negative zero real part, so the printer must normalise a zero real part away.  Special values:
+    'is it infinite / NaN' must be asked of a Decimal itself, never through math.isinf / math.isnan,
+    which convert to float first and turn every finite decimal beyond 1.8e308 into an infinity."""
+    regexes = {}
+    for n in ctx.py(RD).body:
+        if isinstance(n, ast.Assign) and isinstance(n.value, ast.Call) and P.un(n.value.func) == "re.compile" and n.value.args and isinstance(n.value.args[0], ast.Constant):
+            regexes[P.un(n.targets[0])] = n.value.args[0].value
+    if "complex_literal" not in regexes:
+        raise AnalysisError("anchor vanished: reader.complex_literal")
+    import re as _re
+    rx = _re.compile(regexes["complex_literal"])
+    # FT-repr: the shapes repr(float) takes (upper-cased by the printer), with the j suffix
+    for ex in ("1J", "1.5J", "0.1J", "1E+23J", "1E+16J", "1.5E-07J", "5E-324J", "1.7976931348623157E+308J", "-2.5E-300J", "-1J"):
+        ok = rx.fullmatch(ex) is not None
+        ctx.ob("C03.R11", f"{RD}::complex_literal accepts {ex}", RD, 0, ok,
+               "" if ok else f"the printer can write {ex} (repr of an imaginary number) but the reader's imaginary literal `{regexes['complex_literal']}` rejects it",
+               witness="(read-string (pr-str (python/complex 0 1e23)))")
+    rn = ctx.fn(RD, "_read_num")
+    branch = next((node for node in ast.walk(rn) if isinstance(node, ast.If) and any(isinstance(x, ast.NamedExpr) and "complex_literal" in P.un(x.value) for x in ast.walk(node.test))), None)
+    if branch is None:
+        raise AnalysisError("anchor vanished: _read_num branch for complex_literal")
+    txt = " ".join(P.un(s) for s in branch.body)
+    ok = "float(" in txt and ("eE" in txt or "'e'" in txt.lower() or "exponent" in txt.lower() or "int(" not in txt)
+    ctx.ob("C03.R11", f"{RD}::_read_num::an imaginary literal with an exponent is converted with float()", RD, branch.lineno, ok,
+           "" if ok else "the imaginary part is converted with int() unless it contains a '.', so 1E+23J raises ValueError inside the reader")
+    pc = ctx.fn(OBJ, "_lrepr_complex")
+    g_rets = [r for r in ast.walk(pc) if isinstance(r, ast.Return) and r.value is not None]
+    bare = [r for r in g_rets if P.un(r.value) in ("repr(o).upper()", "repr(o)") and not any(isinstance(a, ast.If) for a in P.ancestors(r) if P.contains(pc, a) and a is not pc)]
+    zero_case = any(isinstance(t, ast.If) and "real" in P.un(t.test) for t in ast.walk(pc))
+    ok = zero_case and not (bare and not zero_case)
+    ctx.ob("C03.R11", f"{OBJ}::_lrepr_complex::a zero real part is normalised away before repr()", OBJ, pc.lineno, ok,
+           "" if ok else "repr() renders complex(-0.0, -1.0) as (-0-1j): (pr-str (- 1J)) is not readable")
+    sp = ctx.fn(OBJ, "_special_number_repr")
+    from ..pycfg import CFG
+    g = CFG(sp)
+    floaty = [nd for nd in g.nodes if nd.ast is not None and nd.kind in ("stmt", "test") and any(P.un(c.func) in ("math.isinf", "math.isnan", "float") for c in P.calls(nd.ast))]
+
+    def not_decimal(a, b, lab):
+        return a.kind == "test" and P.un(a.ast).replace("decimal.", "") == "isinstance(o, Decimal)" and lab is False
+    decimal_served = "Decimal" in P.un(sp.args.args[0].annotation) if sp.args.args and sp.args.args[0].annotation is not None else True
+    ok = (not decimal_served) or all(g.edge_dominated(nd, not_decimal) for nd in floaty)
+    ctx.ob("C03.R11", f"{OBJ}::_special_number_repr::math.isinf / math.isnan are never applied to a Decimal", OBJ, sp.lineno, ok,
+           "" if ok else "math.isinf(o) converts a Decimal to float first: the finite 1E+400M prints as ##Inf and reads back as a float infinity",
+           witness="(binding [*print-dup* true] (pr-str 1E+400M))")
+
+
 def _string_heads(fn):
     """Leading literal text of returned f-strings / constants / seq_lrepr start arguments."""
     heads = []
@@ -376,6 +428,21 @@ def r6_metadata_printed_and_read(ctx):
     ent = {k.value: P.un(v) for k, v in zip(rd.keys, rd.values) if isinstance(k, ast.Constant)} if isinstance(rd, ast.Dict) else {}
     ok = ent.get("^") == "_read_meta"
     ctx.ob("C03.R6", f"{RD}::_read_dispatch['^'] -> _read_meta", RD, getattr(rd, "lineno", 0), ok, "" if ok else "the reader has no `^` entry: printed metadata cannot be read back")
+    # keys of a namespaced map are rebuilt without / with the shared namespace by the printer and the
+    # reader: a symbol key's metadata must travel with it on both sides
+    ml = ctx.fn(MAP, "map_lrepr")
+    strips = [y for y in ast.walk(ml) if isinstance(y, ast.Yield) and y.value is not None and isinstance(y.value, ast.Tuple)]
+    inner = next((f for f in ast.walk(ml) if isinstance(f, P.FUNC) and f is not ml and any(isinstance(c, ast.Call) and isinstance(c.func, ast.Attribute) and c.func.attr == "with_name" for c in ast.walk(f))), None)
+    ok = inner is not None and any(isinstance(c, ast.Call) and isinstance(c.func, ast.Attribute) and c.func.attr == "with_meta" for c in ast.walk(inner))
+    ctx.ob("C03.R6", f"{MAP}::map_lrepr::a namespace-stripped key keeps its metadata", MAP, getattr(inner, "lineno", ml.lineno), ok,
+           "" if ok else "under *print-namespace-maps* the key is rebuilt with with_name(...) only: ^{:q 1} on a symbol key is not printed",
+           witness="(binding [*print-meta* true *print-namespace-maps* true] (pr-str {(with-meta 'n/a {:q 1}) 1}))")
+    _ = strips
+    kp = ctx.fn(RD, "_map_key_processor")
+    symcalls = [c for c in ast.walk(kp) if isinstance(c, ast.Call) and P.un(c.func) == "sym.symbol"]
+    ok = bool(symcalls) and all(any(k.arg == "meta" and "meta" in P.un(k.value) for k in c.keywords) for c in symcalls)
+    ctx.ob("C03.R6", f"{RD}::_map_key_processor::a re-namespaced symbol key keeps its metadata", RD, kp.lineno, ok,
+           "" if ok else "the reader rebuilds a symbol key of #:ns{...} without its metadata")
     rm = ctx.fn(RD, "_read_meta")
     txt = P.un(rm)
     ok = "with_meta(" in txt and "cons(" in txt
@@ -550,6 +617,15 @@ def r7_regex_escape_symmetry(ctx):
 
 
 SELFTEST = [
+    {"name": "imaginary literal without exponent (the repaired defect)", "file": RD, "expect": "C03.R11",
+     "old": "complex_literal = re.compile(r\"-?(\\d+(?:\\.\\d*)?(?:[Ee][+\\-]?\\d+)?)J\")", "new": "complex_literal = re.compile(r\"-?(\\d+(?:\\.\\d*)?)J\")"},
+    {"name": "special-number check through math.isinf for decimals too (the repaired defect)", "file": OBJ, "expect": "C03.R11",
+     "old": "    if isinstance(o, Decimal):\n        is_nan, is_inf = o.is_nan(), o.is_infinite()\n    else:\n        is_nan, is_inf = math.isnan(o), math.isinf(o)\n", "new": "    is_nan, is_inf = math.isnan(o), math.isinf(o)\n"},
+    {"name": "namespace-stripped key loses its metadata (the repaired defect)", "file": MAP, "expect": "C03.R6",
+     "old": "                if isinstance(k, IWithMeta) and k.meta is not None:\n                    bare = bare.with_meta(k.meta)\n", "new": ""},
+    {"name": "twin: special-number check asks a float through an early return", "file": OBJ, "expect": None,
+     "old": "    if isinstance(o, Decimal):\n        is_nan, is_inf = o.is_nan(), o.is_infinite()\n    else:\n        is_nan, is_inf = math.isnan(o), math.isinf(o)\n",
+     "new": "    if not isinstance(o, Decimal):\n        is_nan, is_inf = math.isnan(o), math.isinf(o)\n    else:\n        is_nan, is_inf = o.is_nan(), o.is_infinite()\n"},
     {"name": "raw literal ends at an escaped quote (the repaired defect)", "file": RD, "expect": "C03.R10",
      "old": "                s.append(\"\\\\\")\n                s.append(char)\n                continue\n", "new": "                s.append(\"\\\\\")\n"},
     {"name": "map printer truncates under print-dup", "file": MAP, "expect": "C03.R9",
